@@ -1075,3 +1075,79 @@ def stale_handle_cases(prefix, kinds, rng=None):
                         c.op("snap", w)
                     cases.append(c)
     return cases
+
+
+def deep_tree_cases(prefix, kinds, depth=70, cross=True):
+    """trees far deeper than any random history builds (a chain of `depth` directories with files at the depths around
+    every power of two and every round number a traversal limit could sit at): walked, copied, moved, removed"""
+    rng = random.Random(53)
+    cases = []
+    marks = sorted(set([1, 7, 8, 9, 15, 16, 17, 31, 32, 33, 39, 40, 41, 42, 49, 50, 51, 63, 64, 65, 66, depth - 1, depth]))
+    for kind in kinds:
+        c = vfx.Case("%s_deep_%s" % (prefix, kind))
+        g = build_config(c, kind, rng)
+        c.cfg = g
+        t = g.target
+        chain = ["t"] + ["d"] * depth
+        c.op("createdirall", vfx.ps(t, "/".join(chain)))
+        for k in marks:
+            if k <= depth:
+                write_file(c, t, "/".join(chain[:k + 1] + ["f%d" % k]), b"at depth %d" % k)
+        c.op("snap", t)
+        c.first_snap = c.nops - 1
+        c.op("walkdir", vfx.ps(t, "t"))
+        c.op("walkdir", "%d:" % t)
+        c.op("copydir", vfx.ps(t, "t"), vfx.ps(t, "u"))
+        c.op("snap", t)
+        c.op("movedir", vfx.ps(t, "u"), vfx.ps(t, "v"))
+        c.op("snap", t)
+        c.op("exists", vfx.ps(t, "/".join(["v"] + ["d"] * depth + ["f%d" % depth])))
+        c.op("readtostring", vfx.ps(t, "/".join(["v"] + ["d"] * depth + ["f%d" % depth])))
+        c.op("removedirall", vfx.ps(t, "t"))
+        c.op("snap", t)
+        for w in g.watch:
+            c.op("snap", w)
+        cases.append(c)
+    return cases
+
+
+def long_path_cases(prefix, kinds, ascii_only=False):
+    """paths of several hundred bytes (30 levels of 10-byte names; multi-byte names so that every byte offset falls
+    inside a character for some alignment): every call fails or succeeds on them exactly as on short ones"""
+    rng = random.Random(59)
+    cases = []
+    alphabets = [("asc", "abcdefghij")] if ascii_only else [("asc", "abcdefghij"), ("jp", "日本語"), ("mix1", "x日本語"), ("mix2", "xy日本語é")]
+    for kind in kinds:
+        for an, name in alphabets:
+            c = vfx.Case("%s_long_%s_%s" % (prefix, kind, an))
+            g = build_config(c, kind, rng)
+            c.cfg = g
+            t = g.target
+            chain = [name] * 30
+            deep = "/".join(chain)
+            c.op("createdirall", vfx.ps(t, deep))
+            write_file(c, t, deep + "/file", b"far down")
+            c.op("snap", t)
+            c.first_snap = c.nops - 1
+            for opk in ONE_PATH_OPS:
+                for tp in (deep + "/missing", deep + "/file/below", deep + "/file", deep, deep + "/missing/again"):
+                    if opk in ("removedirall", "removedir", "removefile") and tp in (deep, deep + "/file"):
+                        continue
+                    if opk in ("createfile", "appendfile"):
+                        h = c.op(opk, _ps(t, tp)); c.op("hdrop", h)
+                    elif opk == "openfile":
+                        h = c.op(opk, _ps(t, tp)); c.op("hdrop", h)
+                    elif opk in ("setmtime", "setctime", "setatime"):
+                        c.op(opk, _ps(t, tp), TIMES[1])
+                    else:
+                        c.op(opk, _ps(t, tp))
+            for opk in TWO_PATH_OPS:
+                for sp, dp in ((deep + "/missing", deep + "/dst"), (deep + "/file", deep + "/file"), (deep + "/file", deep + "/no/dst"),
+                               (deep, deep + "/file"), (deep + "/file", deep + "/copy_" + opk)):
+                    if opk in ("copydir", "movedir") and dp.startswith(sp + "/"):
+                        continue
+                    c.op(opk, _ps(t, sp), _ps(t, dp))
+            c.op("walkdir", "%d:" % t)
+            c.op("snap", t)
+            cases.append(c)
+    return cases
